@@ -155,6 +155,7 @@ func rdataEqual(a, b dns.RR) bool {
 type registryT struct {
 	nonces  sync.Map // nonce (lower hex) -> owner description (string)
 	cookies sync.Map // cookie (8 raw bytes as string) -> nonce
+	names   sync.Map // exact spelling of a sent question name -> client label of (one) sender
 }
 
 var registry registryT
@@ -601,7 +602,9 @@ func (ep *endpoint) judge(raw []byte, fixed *query) *query {
 			if ep.tr == "doq" {
 				wantID = 0
 			}
-			if name != q.Name || qtype != q.Qtype || qclass != q.Qclass {
+			if name != q.Name && strings.EqualFold(name, q.Name) && qtype == q.Qtype && qclass == q.Qclass {
+				ep.caseViolation(raw, q, name)
+			} else if name != q.Name || qtype != q.Qtype || qclass != q.Qclass {
 				who, _ := registry.ownerOf(nonce)
 				ep.violate("match/foreign-question/"+ep.tr, fmt.Sprintf("the exchange for %q type %d returned a reply to %q type %d class %d (nonce owner: %q)", q.Name, q.Qtype, name, qtype, qclass, who), raw, q, "")
 				ep.foreignScan(raw, q.Nonce, q)
@@ -615,9 +618,18 @@ func (ep *endpoint) judge(raw []byte, fixed *query) *query {
 				return nil
 			}
 		} else {
-			var sameQ, sameQAnswered *query
+			// exact spelling first; a reply whose question differs from the
+			// query only in letter case still identifies the query, and is
+			// reported as exactly that
+			var sameQ, sameQAnswered, folded *query
 			for _, c := range ep.byNonce[nonce] {
-				if c.Name != name || c.Qtype != qtype || c.Qclass != qclass {
+				if c.Qtype != qtype || c.Qclass != qclass {
+					continue
+				}
+				if c.Name != name {
+					if folded == nil && c.ID == h.id && c.answered.Load() == 0 && strings.EqualFold(c.Name, name) {
+						folded = c
+					}
 					continue
 				}
 				if c.ID == h.id && c.answered.Load() == 0 {
@@ -629,6 +641,10 @@ func (ep *endpoint) judge(raw []byte, fixed *query) *query {
 				} else {
 					sameQ = c
 				}
+			}
+			if q == nil && folded != nil {
+				q = folded
+				ep.caseViolation(raw, q, name)
 			}
 			if q == nil {
 				switch {
@@ -698,6 +714,22 @@ func (ep *endpoint) judge(raw []byte, fixed *query) *query {
 		ep.counters["contract_checked"]++
 	}
 	return q
+}
+
+// caseViolation: the reply's question spells the name differently from the
+// query it answers. Those letters are not this query's bytes.
+func (ep *endpoint) caseViolation(raw []byte, q *query, got string) {
+	note := "nobody sent that spelling"
+	sig := "match/question-case/" + ep.tr
+	if who, ok := registry.names.Load(got); ok {
+		note = "that exact spelling was sent by client " + who.(string)
+		if ep.round == "resolver" {
+			// known shape on the full chain: a resolver-level shared lookup
+			// hands the follower the leader's question (see FINDINGS.md)
+			sig = "resolver/question-spelling-of-shared-lookup-leader"
+		}
+	}
+	ep.violate(sig, fmt.Sprintf("the reply to %q (id %#04x) carries the question %q: same name, another spelling (%s)", q.Name, q.ID, got, note), raw, q, note)
 }
 
 func (ep *endpoint) foreignScan(raw []byte, own string, q *query) {
